@@ -66,7 +66,7 @@ def cases(tier, seed):
     # composite helpers on the public reduction path (labelled pandas contract model, as in C01's assembly family)
     for labels, st in (([0, 1], "categorical"), ([1, 0], "appearance"), (["b", "a"], "appearance")):
         for mk in ("none", "bool_sym"):
-            for comp in ("agg_list", "ratio", "density", "density_size", "margin_sum", "margin_mean"):
+            for comp in ("agg_list", "ratio", "density", "density_size", "margin_sum", "margin_mean") + (("subset_ratio",) if mk == "bool_sym" else ()):
                 c = {"kind": "composite", "comp": comp, "N": 3, "G": 2, "labels": labels, "state": st, "mask": {"kind": mk}, "dtype": "float64", "func": "sum",
                      "observed_only": True}
                 c["name"] = f"GroupBy.{comp}/N=3,G=2/labels={labels}({st})/mask={mk}"
@@ -324,12 +324,16 @@ def run_composite(E, case, prop=None):
         # documented precondition of ratio: both inputs null at the same rows
         w = inp.values("w", N, dt, sum_safe=True)
         d["values2"] = [SF(v.nan, x.v) if isinstance(v, SF) else x for v, x in zip(d["values"], w)]
+    if comp == "subset_ratio":
+        d["gmask"] = inp.bools("g", N)          # the global mask; d["mask"] is the subset mask
     merged = MergedRT()
 
     def body():
         gb = ASM._state(E, case, d)
         arrs = R.shadow_arrays(case, d)
         try:
+            if comp == "subset_ratio":
+                return "ok", gb.subset_ratio(arrs["values"], arrs["mask"], A(list(d["gmask"]), "bool").tag("input:mask"))
             if comp == "agg_list":
                 return "ok", gb.agg(arrs["values"], ["sum", "max"], mask=arrs["mask"])
             if comp == "ratio":
@@ -366,6 +370,25 @@ def run_composite(E, case, prop=None):
         merged.pre.extend(rt.pre)
         if status == "raised":
             bads.append((f"raises {out[:120]}", pcz))
+            continue
+        if comp == "subset_ratio":
+            # not among C16's composites: what is decided here is C19's part (no input is written: obligations) and, for groups with a row
+            # in the subset, subset total / global total
+            if not isinstance(out, FakeSeries):
+                bads.append((f"a Series was expected, got {type(out).__name__}", pcz))
+                continue
+            got = list(out.index.labels)
+            for g in range(G):
+                both = [b_and(s_, c == g, d["gmask"][i]) for i, (c, v, s_) in enumerate(rows)]
+                glob = [b_and(c == g, d["gmask"][i]) for i, (c, v, s_) in enumerate(rows)]
+                pos = [i for i, lab in enumerate(got) if lab == labels[g] and type(lab) is type(labels[g])]
+                if not pos:
+                    bads.append((f"subset_ratio: label {labels[g]!r} missing although a row of the subset carries it", b_and(pcz, b_or(*both))))
+                    continue
+                num_ = total([ite(b_and(m, b_not(is_null_val(v, dt))), num(v), 0) for m, (c, v, s_) in zip(both, rows)], 0)
+                den_ = total([ite(b_and(m, b_not(is_null_val(v, dt))), num(v), 0) for m, (c, v, s_) in zip(glob, rows)], 0)
+                bads.append((f"subset_ratio[{labels[g]!r}] == subset total / global total",
+                             b_and(pcz, b_or(*both), b_not(R.approx_same(out.arr.cells[pos[0]], fdiv(num_, den_))))))
             continue
         if comp == "agg_list":
             if not isinstance(out, FakeFrame) or list(out.columns) != ["sum", "max"]:
@@ -483,6 +506,21 @@ def replay_composite(case, conc):
                 if list(a.index) != list(b.index) or not real_np.array_equal(real_np.asarray(a, float), real_np.asarray(b, float), equal_nan=True):
                     problems.append(f"agg list column {name}: {a.to_dict()} != individual call {b.to_dict()}")
         else:
+            if comp == "subset_ratio":
+                gm = real_np.array(conc["g"], dtype=bool)
+                keep = [x.copy() for x in (v, mask, gm)]
+                out = gb.subset_ratio(v, mask, gm)
+                for nm, a, b in zip(("values", "subset_mask", "global_mask"), (v, mask, gm), keep):
+                    if not real_np.array_equal(a, b, equal_nan=a.dtype.kind == "f"):
+                        problems.append(f"subset_ratio modified the caller's {nm}: {b.tolist()} -> {a.tolist()}")
+                for g in range(G):
+                    rows = [i for i in range(N) if codes[i] == g and keep[1][i] and gm[i]]
+                    grow = [i for i in range(N) if codes[i] == g and gm[i]]
+                    if rows:
+                        den = float(real_np.nansum(v[grow]))
+                        if den != 0 and (labels[g] not in out.index or not approx_same(float(out.loc[labels[g]]), float(real_np.nansum(v[rows])) / den)):
+                            problems.append(f"subset_ratio[{labels[g]!r}] = {out.get(labels[g])!r}")
+                return bool(problems), {"problems": problems[:5], "codes": codes, "labels": labels, "inputs": jsonable(conc)}
             if comp == "ratio":
                 w = R.np_values(to_float_cells(conc["w"]), "float64")
                 w = real_np.where(real_np.isnan(v), real_np.nan, w)
